@@ -750,6 +750,12 @@ func oracle(stream, in, outPath string) {
 				}
 			}
 			rs = nil
+			// Validate's documented limit is 64 owner groups: a list within the limit must not be refused
+			if cur.status == "invalid:ownergroups" && verdict == "" {
+				if n := len(config.Split(c.OwnerGroupsInclude)); c.OwnerGroupsInclude == "*" || n <= 64 {
+					verdict = "FAIL owner-groups-limit:refused-within-limit " + strconv.Itoa(n) + "_groups"
+				}
+			}
 			if cur.status == "crash" && verdict == "" {
 				verdict = "FAIL crash compiler-panicked"
 			}
